@@ -20,7 +20,10 @@ changes the model the theorems of coq/C06/Properties.v are checked against):
     set_cfa / set_ra, whether the remaining rules are sorted, and what each of the three outcomes of a general rule
     does (set / clear).  Everything else in these functions (trace!/debug! lines aside) is PINNED: the translator
     aborts (exit 1) on any statement it does not recognise.
-  * enum CfiReg: variant order and the derives (the sort of the remaining rules is the derived Ord)."""
+  * enum CfiReg: variant order and the derives (the sort of the remaining rules is the derived Ord).
+  * record selection: the comparison of walk_frame's `while .. add_rules[count].address <= addr` loop (mod.rs), whether
+    finish_item sorts the delta records (parser.rs); CfiRules' field order / derive(Ord) and StackInfoCfi::memory_range
+    (types.rs) are pinned."""
 import os
 import re
 import sys
@@ -607,6 +610,53 @@ variants = [re.sub(r"\s+", "", v) for v in m_.group(2).split(",") if v.strip()]
 if variants != ["Cfa", "Ra", "Other(&'astr)"]:
     die("enum CfiReg variants changed: %s" % variants)
 
+
+# ----------------------------------------------------------------------------- record selection (mod.rs, parser.rs, types.rs)
+def nows(t):
+    return re.sub(r"\s+", "", re.sub(r"//[^\n]*", "", t))
+
+
+modrs = open(os.path.join(repo, "breakpad-symbols/src/sym_file/mod.rs")).read()
+m_ = re.search(r"win_stack_result\.or_else\(\|\|\s*\{(.*?)\n        \}\)", modrs, re.S)
+if not m_:
+    die("mod.rs walk_frame: `win_stack_result.or_else(|| { .. })` not found")
+closure = nows(m_.group(1))
+m2 = re.fullmatch(re.escape("ifletSome(info)=self.cfi_stack_info.get(addr){letmutcount=0;letlen=info.add_rules.len();"
+                            "whilecount<len&&info.add_rules[count].address") + r"(<=|<|>=|>|==|!=)" +
+                  re.escape("addr{count+=1;}walker::walk_with_stack_cfi(&info.init,&info.add_rules[0..count],walker)}else{None}"),
+                  closure)
+if not m2:
+    die("mod.rs walk_frame: the STACK CFI branch changed: " + closure[:400])
+if m2.group(1) not in ("<=", "<"):
+    die("mod.rs walk_frame: delta records are selected with `address %s addr`" % m2.group(1))
+take_cmp = {"<=": "CmpLe", "<": "CmpLt"}[m2.group(1)]
+if nows("let addr = walker.get_instruction() - module.base_address();") not in nows(modrs):
+    die("mod.rs walk_frame: `addr` is no longer instruction - module base")
+parser = open(os.path.join(repo, "breakpad-symbols/src/sym_file/parser.rs")).read()
+m_ = re.search(r"Line::StackCfi\(mut cur\) => \{(.*?)\n            \}", parser, re.S)
+if not m_:
+    die("parser.rs finish_item: `Line::StackCfi(mut cur) => { .. }` not found")
+arm = nows(m_.group(1))
+tail_ = "ifletSome(range)=cur.memory_range(){self.cfi_stack_info.push((range,cur));}"
+if arm == "cur.add_rules.sort();" + tail_:
+    deltas_sorted = "true"
+elif arm == tail_:
+    deltas_sorted = "false"
+else:
+    die("parser.rs finish_item: the StackCfi arm changed: " + arm[:300])
+types = open(os.path.join(repo, "breakpad-symbols/src/sym_file/types.rs")).read()
+m_ = re.search(r"#\[derive\(([^)]*)\)\]\s*pub struct CfiRules \{(.*?)\}", types, re.S)
+if not m_:
+    die("types.rs: struct CfiRules with its derive not found")
+if not {"Ord", "PartialOrd", "Eq", "PartialEq"} <= {x.strip() for x in m_.group(1).split(",")}:
+    die("types.rs: CfiRules no longer derives Ord")
+flds = re.findall(r"pub (\w+): (\w+),", re.sub(r"///[^\n]*", "", m_.group(2)))
+if flds != [("address", "u64"), ("rules", "String")]:
+    die("types.rs: CfiRules fields changed (the derived Ord compares them in order): %s" % flds)
+m_ = re.search(r"impl StackInfoCfi \{\s*pub fn memory_range\(&self\) -> Option<Range<u64>> \{(.*?)\n    \}", types, re.S)
+if not m_ or nows(m_.group(1)) != "ifself.size==0{returnNone;}Some(Range::new(self.init.address,self.init.address.checked_add(self.sizeasu64)?-1,))":
+    die("types.rs: StackInfoCfi::memory_range changed")
+
 # ----------------------------------------------------------------------------- output
 def lst(items, indent="  "):
     if not items:
@@ -676,11 +726,18 @@ Definition cfi_loop_with_cfa : bool := %s.
 Definition cfi_on_accepted : list gact := %s.    (* Some(val), set_caller_register(..).is_some() *)
 Definition cfi_on_rejected : list gact := %s.    (* Some(val), set_caller_register(..) is None *)
 Definition cfi_on_failed : list gact := %s.      (* None *)
+
+(* ---- record selection ---- *)
+Inductive gcmp := CmpLe | CmpLt.
+(* mod.rs walk_frame: while count < len && info.add_rules[count].address <cmp> addr { count += 1 }; &add_rules[0..count] *)
+Definition cfi_take_cmp : gcmp := %s.
+(* parser.rs finish_item: cur.add_rules.sort() (derived Ord of CfiRules: address, then rules) *)
+Definition cfi_deltas_sorted : bool := %s.
 """ % (
     lst(["(%s,\n    %s)" % (coq_bytes(t), lst(ss, "    ")) for t, ss in arms]),
     lst(chain), final_len, ord(label_suffix), label_suffix, lst(classify),
     " < ".join(v.split("(")[0] for v in variants), lst(steps),
-    loop_cfa, lst(on_ok), lst(on_reject or []), lst(on_fail))
+    loop_cfa, lst(on_ok), lst(on_reject or []), lst(on_fail), take_cmp, deltas_sorted)
 path = os.path.join(outdir, "CfiOps.v")
 os.makedirs(outdir, exist_ok=True)
 try:
